@@ -13,7 +13,7 @@ fam('comb', depth=3, maxstack=4,
     inits=[(S(C4, V4),), (S(INT, i(9)), S(C4, V4)), (S(P(P(INT, NAT), P(STR, BOOL)), p(p(i(1), i(2)), p(s('y'), F_))),)],
     alphabet=[('UNPAIR', 2), ('UNPAIR', 3), ('UNPAIR', 4), ('PAIR', 2), ('PAIR', 3), ('PAIR', 4), ('GET', 1), ('GET', 2), ('GET', 3), ('GET', 4), ('GET', 5), ('GET', 6),
               ('UPDATE', 1), ('UPDATE', 2), ('UPDATE', 3), ('UPDATE', 4), ('UPDATE', 6), ('CAR',), ('CDR',), ('SWAP',), DUP(1), ('COMPARE',),
-              ('LEFT', C4), ('IF_LEFT', (('GET', 3),), (('GET', 4), ('SIZE',))),
+              ('LEFT', C4), ('IF_LEFT', (('GET', 3),), (('GET', 5), ('SIZE',))),
               # a structurally equal value rebuilt at run time (its type carries no annotations) next to the annotated original
               ('SEQ', (DUP(1), ('UNPAIR', 4), ('PAIR', 4))), ('SEQ', (DUP(1), ('UNPAIR', 3), ('PAIR', 3))), ('SEQ', (DUP(1), ('UNPAIR', 2), ('PAIR', 2)))])
 fam('annot_text', depth=4, maxstack=4,
